@@ -39,6 +39,7 @@ pub fn prop() -> Prop {
         independent: &["harness Lagrange interpolation at the repaired identifier"],
         ref_sample: |_| 0,
         required_probes: &["repair_existing", "repair_new_identifier", "helpers_gt_t", "helpers_eq_t", "helpers_all_others", "keys_from_dkg", "signed_with_repaired", "refusals_checked", "reordered_arrival"],
+        prepare: None,
     }
 }
 
